@@ -95,7 +95,7 @@ static int c18_main(int argc,char **argv){
   while((line=readline_(stdin))){
     int n=split(line,tok,16);
     if(n==0){ free(line); continue; }
-    if(!strcmp(tok[0],"case")){ printf("== case %s\n",n>1?tok[1]:"?"); fflush(stdout); }
+    if(!strcmp(tok[0],"case")){ printf("== case %s\n",n>1?tok[1]:"?"); fflush(stdout); case_watchdog(); }
     else if(!strcmp(tok[0],"run")&&n>=3){
       int threads=!strcmp(tok[1],"threads"); int k=atoi(tok[2]),i; c18_job *J=calloc(k,sizeof *J); pthread_t *T=calloc(k,sizeof *T);
       for(i=0;i<k;i++){
